@@ -4,7 +4,11 @@ grid, exact natural -> expectation gradient maps and (dk/dl)/k ratios).
 Replay: (a) RBFCovariance / MaternCovariance vs autograd of the same forward in plain torch ops, (b) fast vs generic kernel path:
 values and hyperparameter gradients, (c) log_normal_cdf backward vs finite differences of its forward and vs phi/Phi, (d) natural /
 tril-natural distributions: delivered gradient = gradient w.r.t. the expectation parameters, (e) gradients of exact-GP predictions
-w.r.t. test inputs vs finite differences, (f) the CIQ natural-gradient Function.  Level "other"."""
+w.r.t. test inputs vs finite differences, (f) the CIQ natural-gradient Function, (g) KernelCalls.tla: the call-configuration lattice of the two-path kernels
+(diag, last_dim_is_batch, x2 None / equal / different, requires_grad of either input, trace_mode, shared / ARD / batched lengthscale, sizes incl. kernel batch = d = n):
+values and the gradient of EVERY parameter under every forcing against autograd of the documented formula, (h) BackwardOps.tla: forward -> backward^k through ONE
+graph for every hand-written Function (directly and through the public object): every pass = upstream . dF(x), = the same pass through a fresh graph, context
+untouched; Jacobian rows.  Replay code of (g), (h): checks/c19_multi.py.  Level "other"."""
 import math
 import os
 import random
@@ -32,13 +36,33 @@ def cdf_tols(z, br):
     return 1e-7, 1e-7
 
 
-def write_mc(workdir, name, part, instances=(), inv=()):
+# the call-configuration lattice (KernelCalls.tla) and the histories of the backward machine (BackwardOps.tla), per tier
+KC_BATCH = {"quick": [(0, 0), (2, 0), (3, 0), (2, 2), (3, 3), (0, 2)], "thorough": [(0, 0), (2, 0), (3, 0), (2, 2), (3, 3), (0, 2), (0, 3)]}
+KC_DIMS = [1, 2, 3]
+KC_MODES = ["same", "clone", "eqn", "gt", "lt"]
+KC_WRAPS = ["plain", "scale"]
+KC_FORCES = ["none", "x1grad", "x2grad", "trace"]
+BW_MAX = 3
+BW_UP = {"quick": ["ones", "randA"], "thorough": ["ones", "randA", "randB", "unit"]}
+
+
+def tset(vals):
+    return "{%s}" % ", ".join(tla(list(v)) if isinstance(v, tuple) else tla(v) for v in vals)
+
+
+def write_mc(workdir, name, part, instances=(), inv=(), tier="quick", impure=(), fns=None):
     os.makedirs(workdir, exist_ok=True)
     mod = "MC_Grad_" + name
     with open(os.path.join(workdir, mod + ".tla"), "w") as f:
-        f.write("---- MODULE %s ----\nEXTENDS Grad\nInstDef == {%s}\n====\n" % (mod, ",\n  ".join(tla(i) for i in instances)))
+        f.write("---- MODULE %s ----\nEXTENDS Grad\nInstDef == {%s}\n" % (mod, ",\n  ".join(tla(i) for i in instances)))
+        f.write("KCDimsDef == %s\nKCBatchDef == %s\nKCModesDef == %s\nKCWrapsDef == %s\nKCForcesDef == %s\n" % (
+            tset(KC_DIMS), tset(KC_BATCH[tier]), tset(KC_MODES), tset(KC_WRAPS), tset(KC_FORCES)))
+        f.write("BWUpDef == %s\nBWImpureDef == %s\n" % (tset(BW_UP[tier]), tset(tuple(i) for i in impure)))
+        f.write("MachFnsDef == %s\n====\n" % tset(fns if fns is not None else ["rbfcov", "materncov", "lncdf", "nat2muvar", "trilnat2muvar", "ngdinterp"]))
     cfg = os.path.join(workdir, mod + ".cfg")
-    tlc.write_cfg(cfg, spec="GSpec", constants={"Part": part, "Instances": "<- InstDef"}, invariants=list(inv))
+    tlc.write_cfg(cfg, spec="GSpec", invariants=list(inv),
+                  constants={"Part": part, "Instances": "<- InstDef", "KCDims": "<- KCDimsDef", "KCBatch": "<- KCBatchDef", "KCModes": "<- KCModesDef", "KCWraps": "<- KCWrapsDef",
+                             "KCForces": "<- KCForcesDef", "BWMaxBwd": BW_MAX, "BWUpstreams": "<- BWUpDef", "BWImpure": "<- BWImpureDef", "MachFns": "<- MachFnsDef"})
     return os.path.join(workdir, mod + ".tla"), cfg
 
 
@@ -73,7 +97,8 @@ def _worker(item):
     c05._install_spies()
     out = []
     for c in item["cases"]:
-        fn = dict(cov=run_cov, covr=run_covr, path=run_path, ard=run_path, cdf=run_cdf, nat=run_nat, natx=run_natx, ciq=run_ciq, pred=run_pred)[c["kind"]]
+        from checks import c19_multi as cm
+        fn = dict(cov=run_cov, covr=run_covr, path=run_path, ard=run_path, cdf=run_cdf, nat=run_nat, natx=run_natx, ciq=run_ciq, pred=run_pred, call=cm.run_call, mach=cm.run_mach)[c["kind"]]
         r = fn(torch, gpytorch, c)
         out.extend(r if isinstance(r, list) else [r])
     return out
@@ -281,12 +306,25 @@ def run_cdf(torch, gpytorch, c):
     zs = [n / 20.0 for n, _ in c["pts"]]
     z = torch.tensor(zs, dtype=D, requires_grad=True)
     g = torch.Generator().manual_seed(c["seed"])
-    ok, got = core.guarded(lambda: torch.autograd.grad(log_normal_cdf(z).sum(), z)[0])
+    # ONE graph, three passes (BackwardOps.tla: grad(ones) -> grad(random) -> grad(ones)); the comparisons below use the LAST pass
+    up = torch.randn(len(zs), generator=g, dtype=D)
+
+    def three():
+        out_ = log_normal_cdf(z)
+        g1 = torch.autograd.grad(out_.sum(), z, retain_graph=True)[0]
+        g2 = torch.autograd.grad(out_, z, grad_outputs=up, retain_graph=True)[0]
+        g3 = torch.autograd.grad(out_.sum(), z, retain_graph=True)[0]
+        return g1, g2, g3
+    ok, got = core.guarded(three)
     if not ok:
         return dict(key=["cdf", c["pts"]], ok=False, sig="C19/log_normal_cdf/raises", detail="z=%s: %s" % (zs, got), case=c)
-    grad = got
-    up = torch.randn(len(zs), generator=g, dtype=D)
-    ok2, got2 = core.guarded(lambda: torch.autograd.grad(log_normal_cdf(z), z, grad_outputs=up)[0])
+    grad = got[2]
+    ok2, got2 = True, got[1]
+    ok3, why3 = core.close(got[0], got[2], 1e-13, 0.0)
+    if not ok3:
+        k3 = int((got[0] - got[2]).abs().argmax())
+        return dict(key=["cdf", c["pts"]], ok=False, nontrivial=True, sig="C19/log_normal_cdf/%s/later-pass" % _branch(zs[k3]), case=c,
+                    detail="z=%s: the third backward pass through one graph delivers %.12g, the first %.12g (same upstream)" % (zs[k3], float(got[2][k3]), float(got[0][k3])))
     h = 1e-3
     for k, (n, exp) in enumerate(c["pts"]):
         zk = zs[k]
@@ -597,6 +635,8 @@ def _plain(v):
         return {k: _plain(x) for k, x in v.items()}
     if isinstance(v, (tuple, list)):
         return [_plain(x) for x in v]
+    if isinstance(v, (set, frozenset)):
+        return sorted(_plain(x) for x in v)
     if isinstance(v, bool) or isinstance(v, int):
         return v
     return str(v)
@@ -609,7 +649,10 @@ def run(ck):
     rnd = random.Random(ck.seed)
     ck.rule = ("cells = the branch lattice of Grad.tla: covariance Function x nu x coincident points x batch x upstream; every fast cell of the kernel lattice paired with a forcing of the "
                "generic branch; LogNormalCDF grid z = n/20 in [-12, 8] + far tail with the forward/backward masks; natural / tril-natural x size x batch x loss; CIQ; prediction gradients; "
-               "exact = rational instances evaluated by TLC; non-trivial = a cell with r = 0 entries / batch / random upstream, a forced pair, every grid point, M >= 2")
+               "call-configuration lattice of KernelCalls.tla (every valid cell x every forcing); every maximal history (<= 3 passes; upstream gradients x grad / accumulate / release, "
+               "Jacobian rows) of the backward machine of BackwardOps.tla x Function x route x input class; "
+               "exact = rational instances evaluated by TLC; non-trivial = a cell with r = 0 entries / batch / random upstream, a forced pair, every grid point, M >= 2, every call cell, "
+               "a history with >= 2 passes")
     ck.assumptions = [
         "level 'other': gradients are compared on seeded float64 inputs; exhaustive only over the branch lattice; exact only on the rational instances",
         "(a) 1e-7 relative on d/d lengthscale; the reference forward takes r from the inputs and divides by the lengthscale (identical function, differentiable in l also at r = 0)",
@@ -621,6 +664,13 @@ def run(ck):
         "(d) the gradient w.r.t. eta2 is taken w.r.t. the symmetric matrix (symmetrised); for the tril parameterisation the delivered gradient is the tangent dC of the factor C (C^T C = -2 theta2) "
         "along d theta2 = d loss / d eta2, characterised by dC^T C + C^T dC = -2 G with dC lower triangular",
         "(e) 1e-6 relative against 4th-order central differences (h = 1e-4), test points distinct from the training points",
+        "(g) call-configuration lattice: one seeded instance per cell (two in the thorough tier), lengthscales / outputscales pairwise distinct over batch and dimensions; values 1e-9, "
+        "gradients of raw_lengthscale and raw_outputscale 1e-7 against autograd of the documented formula (r = 0 entries constant in every parameter), forcing none vs every other forcing 1e-9; "
+        "the nu = 1/2 exception of (b) applies when x1 equals x2; every library gradient is taken as the SECOND pass through its graph; only hyperparameter gradients are compared "
+        "(gradients w.r.t. inputs that require grad come from plain autograd); which branch ran is observed with a spy on the Function (a mismatch with KernelCalls.tla is MODEL-DRIFT)",
+        "(h) backward machine: per pass (i) the delivered vector-Jacobian product against the derivative of the forward at the tolerances of (a), (c), (d), (f), (ii) against the same upstream "
+        "through a fresh graph at 1e-12, (iii) saved tensors and tensor attributes of the context bit-identical to their state after the forward, (iv) the upstream tensors untouched; a pass "
+        "recovered from an accumulated .grad is granted the rounding of the subtraction; upstream gradients of outputs that are lower triangular by construction are masked to the triangle",
         "(f) _NgdInterpTerms is called directly (M <= 3, CG tolerance 1e-14) and compared at 1e-4 only: its solves go through linear_operator's linear_cg, which returns 1e-15 accurate "
         "solutions on most and 5e-6 accurate solutions on some of these 3 x 3 systems irrespective of the tolerance settings - not a tight check, a wrong factor or sign is what it detects; its forward returns kl = 0 by design, the gradient it delivers for the kl output is compared with "
         "the gradient of the documented KL(q(u) || p(u)) w.r.t. the expectation parameters; the CIQ root K^-1/2 itself (contour integral quadrature) is not exercised",
@@ -629,11 +679,29 @@ def run(ck):
     insts = gen_instances(rnd, thorough)
     jobs = []
     half = len(insts) // 2
+    tw = max(1, min(4, core.NPROC // 3))
     for name, part, ii, inv in (("gcells", "gcells", (), ["GCellsOK"]), ("gexactA", "gexact", insts[:half], ["GExactOK"]), ("gexactB", "gexact", insts[half:], ["GExactOK"])):
         mod, cfg = write_mc(wd, name, part, ii, inv)
-        jobs.append(((mod, cfg), dict(name=PID + "/" + name, dump=True, check=False, workers=4, timeout=1500, coverage=False)))
+        jobs.append(((mod, cfg), dict(name=PID + "/" + name, dump=True, check=False, workers=tw, timeout=1500, coverage=False)))
+    # the call-configuration lattice and the backward machine (thorough: the machine partitioned by Function to keep every dump small)
+    mod, cfg = write_mc(wd, "gcalls", "gcalls", (), ["GCallsOK"], tier=ck.tier)
+    jobs.append(((mod, cfg), dict(name=PID + "/gcalls", dump=True, check=False, workers=tw, timeout=1500, coverage=False)))
+    mparts = [["rbfcov", "materncov"], ["lncdf", "ngdinterp"], ["nat2muvar"], ["trilnat2muvar"]] if thorough else [["rbfcov", "materncov", "lncdf", "nat2muvar", "trilnat2muvar", "ngdinterp"]]
+    for k, fns in enumerate(mparts):
+        mod, cfg = write_mc(wd, "gmachine%d" % k, "gmachine", (), ["GMachineOK"], tier=ck.tier, fns=fns)
+        jobs.append(((mod, cfg), dict(name=PID + "/gmachine%d" % k, dump=True, check=False, workers=tw, timeout=1500, coverage=False)))
+    # vacuity guard of the histories: a backward that writes to one context entry must be found, and only by a history with two passes
+    mod, cfg = write_mc(wd, "gimpure", "gmachine", (), ["GMachineDerivOK"], tier=ck.tier, fns=["lncdf"], impure=[("lncdf", "denominator")])
+    jobs.append(((mod, cfg), dict(name=PID + "/gimpure", dump=False, check=False, workers=1, timeout=600, coverage=False)))
     rs = tlc.run_many(jobs, parallel=3)
-    for lab, r in zip(("branch lattice", "exact rational instances A", "exact rational instances B"), rs):
+    r_imp = rs.pop()
+    ck.add_tlc(r_imp, "Grad backward machine with an in-place write on ctx.denominator (must violate)")
+    passes = max([len(st.get("out", {}).get("m", {}).get("hist", ())) for _, st in (r_imp.violation or {}).get("trace", [])] or [0])
+    if not r_imp.violation or r_imp.violation["name"] != "GMachineDerivOK" or passes < 2:
+        ck.vacuous("the backward machine does not distinguish an impure backward (violation %r, passes in the counterexample %d)" % ((r_imp.violation or {}).get("name"), passes))
+    n_m = len(mparts)
+    r_calls, r_mach = rs[3], rs[4:4 + n_m]
+    for lab, r in zip(("branch lattice", "exact rational instances A", "exact rational instances B", "call-configuration lattice") + tuple("backward machine %d" % k for k in range(n_m)), rs):
         ck.add_tlc(r, "Grad " + lab)
         if r.violation:
             ck.model_drift("Grad.tla (%s) violates %s" % (lab, r.violation["name"]))
@@ -651,12 +719,40 @@ def run(ck):
             ck.vacuous("no grid point in the %s branch of LogNormalCDF" % b)
     byid = {i["id"]: i for i in insts}
     cases = []
-    for r in rs[1:]:
+    for r in rs[1:3]:
         for st in r.states():
             inst = byid[st["c"]["id"]]
             cases.append(dict(kind="covr" if inst["kind"] == "covr" else "natx", inst=inst, exp=_plain(st["out"])))
     if len(cases) != len(insts):
         ck.vacuous("TLC evaluated %d of %d rational instances" % (len(cases), len(insts)))
+    # ---- call-configuration lattice: one case per cell, evaluated under every forcing
+    calls = [(_plain(st["c"]), _plain(st["out"])) for st in r_calls.states()]
+    calls.sort(key=lambda c: repr(sorted(c[0].items())))
+    n_fast = sum(1 for _, o in calls if o["paths"]["none"] == "fast")
+    n_unsound = sum(1 for _, o in calls if not o["sound"])
+    if not calls or not n_fast or not n_unsound or not any(c["ldb"] and c["kb"] == c["d"] for c, _ in calls):
+        ck.vacuous("call-configuration lattice: %d cells, %d on the fast branch, %d the Function must not see" % (len(calls), n_fast, n_unsound))
+    for k, (cell, exp) in enumerate(calls):
+        for sd in range(2 if thorough else 1):
+            cases.append(dict(kind="call", cell=cell, exp=exp, seed=(ck.seed * 6151 + k) * 4 + sd))
+    # ---- backward machine: every maximal history
+    n_hist = collections.Counter()
+    k = 0
+    for r in r_mach:
+        for st in r.states():
+            m = _plain(st["out"]["m"])
+            hist = m["hist"] if isinstance(m["hist"], list) else []
+            if not hist or (m["phase"] == "recorded" and m["alive"] in (True, "True") and len(hist) < BW_MAX):
+                continue
+            if any(v not in (0, "0") for h in hist for v in h["saw"].values()):
+                raise core.Machinery("C19: a history of the unchanged model reads a modified context")
+            cell = _plain(st["c"])
+            k += 1
+            n_hist[cell["fn"]] += 1
+            cases.append(dict(kind="mach", cell=cell, hist=[dict(u=h["u"], how=h["how"]) for h in hist], seed=(ck.seed * 3571 + k) * 2))
+    for fn in ("rbfcov", "materncov", "lncdf", "nat2muvar", "trilnat2muvar", "ngdinterp"):
+        if not n_hist[fn]:
+            ck.vacuous("backward machine: no history for %s" % fn)
     seeds = 8 if thorough else 1
     pts = sorted((c["zn"], o) for c, o in cells if c["kind"] == "cdf")
     for i in range(0, len(pts), 20):
@@ -676,9 +772,12 @@ def run(ck):
     ck.extra["failing_signature_counts"] = dict(sorted(sigs.items()))
     ck.exhaustive = False
     ck.section("lattice", **{k + "_cells": v for k, v in kinds.items()})
+    ck.section("calls", cells=len(calls), default_branch_fast=n_fast, configurations_the_function_must_not_see=n_unsound,
+               evaluations_incl_forcings=sum(len(o["paths"]) for _, o in calls))
+    ck.section("machine", maximal_histories=sum(n_hist.values()), passes_per_graph_max=BW_MAX, upstreams=BW_UP[ck.tier], **{"histories_" + k: v for k, v in n_hist.items()})
     ck.section("exact", rational_instances=len(insts), **{k: sum(1 for i in insts if i["kind"] == k) for k in ("nat", "tril", "covr")})
     ck.extra["trusted_base"] = ["torch.autograd on plain torch ops (reference gradients)", "float64 finite differences (4th order)", "mpmath (phi/Phi)", "checks/c05_ref.py (documented kernel formulas)",
-                                "TLC + Rational.tla / LinAlg.tla"]
+                                "TLC + Rational.tla / LinAlg.tla", "bit comparison of the autograd context (grad_fn.saved_tensors, tensor attributes)"]
 
 
 def replay(rep):
